@@ -825,6 +825,23 @@ class Interp:
     def e_SetComp(self, node, fr):
         return self.comprehension(node, fr, 'set')
 
+    def e_DictComp(self, node, fr):
+        if len(node.generators) != 1:
+            raise Unsupported('nested comprehension')
+        g = node.generators[0]
+        items = self.concrete_items(self.eval(g.iter, fr))
+        out = {}
+        for x in items:
+            f2 = Frame(parent=fr)
+            self.assign_target(g.target, x, f2)
+            if all(self.branch(self.truth(self.eval(c, f2)))
+                   for c in g.ifs):
+                k = self.eval(node.key, f2)
+                if S.is_sym(k):
+                    raise Unsupported('symbolic key in dict comprehension')
+                out[k] = self.eval(node.value, f2)
+        return out
+
     def comprehension(self, node, fr, kind):
         if len(node.generators) != 1:
             raise Unsupported('nested comprehension')
@@ -1000,6 +1017,22 @@ class Interp:
                         else self.eval(node.value, fr))
 
     def s_If(self, node, fr):
+        # if-conversion of the idiom `if c: s.add(x)` on a symbolic set
+        if not node.orelse and len(node.body) == 1 and isinstance(
+                node.body[0], ast.Expr) and isinstance(
+                    node.body[0].value, ast.Call) and isinstance(
+                        node.body[0].value.func, ast.Attribute) and \
+                node.body[0].value.func.attr == 'add' and isinstance(
+                    node.body[0].value.func.value, ast.Name) and fr.has(
+                        node.body[0].value.func.value.id) and isinstance(
+                            fr.lookup(node.body[0].value.func.value.id),
+                            S.SSet) and len(node.body[0].value.args) == 1:
+            st = fr.lookup(node.body[0].value.func.value.id)
+            c = self.truth(self.eval(node.test, fr))
+            if not isinstance(c, bool):
+                x = st.elem.unwrap(self.eval(node.body[0].value.args[0], fr))
+                st.arr = z3.Store(st.arr, x, z3.Or(c, z3.Select(st.arr, x)))
+                return
         if self.branch(self.truth(self.eval(node.test, fr))):
             self.exec_block(node.body, fr)
         else:
